@@ -210,6 +210,13 @@ def r02_2(prog, out):
             k = key_site(i)
             if k is not None and bi.cfg.dominates(w, k):
                 partners.add(i.bb)
+        # ... or hands the modified delivery to a tracker method that files it again (`self.add(message)`: map entry + expiry entry
+        # computed from the delivery's current deadline)
+        for e2 in prog.effects(b.id):
+            if e2.chain and e2.touches(expirations) and e2.kind in L.INSERT_KINDS and bi.cfg.can_reach(w, e2.bb) and e2.bb != w:
+                t2 = bi.call_at(e2.bb)
+                if t2 is not None and t2.callee is not None and t2.callee.impl_self == tracker:
+                    partners.add(e2.bb)
         if partners and bi.cfg.escapes(w, partners, iteration_exits(bi, w)) is None:
             out.holds(key, bi.loc(w), "after the overwrite every path inserts the entry for the new deadline")
         else:
